@@ -224,6 +224,11 @@ func checkChain(c sim.ChainCase) error {
 			if err := follow(fw.Apply(au, ch.Tip().Elements.NumLeaves, ch.Store), newB, fmt.Sprintf("apply height %d", ch.Height())); err != nil {
 				return err
 			}
+			// the elements a block creates are handed out as the caller's own: a wallet that keeps them as they are
+			// (Move) and refreshes each with the later updates must not, by refreshing one, write into another
+			if err := sim.ElementsHazard(au); err != nil {
+				return stats.Failf("C05/created-elements-share-memory", "height %d: %v", ch.Height(), err)
+			}
 			updated := len(au.SiacoinElementDiffs()) > 0
 			if o, nn := parent.Elements.NumLeaves, ch.Tip().Elements.NumLeaves; updated && (o^nn) > o {
 				sawMerge = true // growth carried into a higher bit: trees merged
